@@ -231,9 +231,12 @@ let run (path : string) =
                   | Some (others, obs) ->
                     (* the farmed values recomputed by the MODEL (Model/FarmValue.v) from the raw reserves, supplies,
                        farmed pool coins and oracle data, against the values the implementation returned *)
+                    let obs_used = ref obs in
                     (match (try parse_fraw (Hashtbl.find fraw i) with Not_found -> None) with
                      | Some (pools, fs) ->
                        let mobs = FarmValue.farm_obs mm.Gauge.m_pool pools fs in
+                       (* eligibility (and with it holds_C19_share) is judged on the MODEL's values: true farmed value *)
+                       obs_used := mobs;
                        bump "farmvalue:compared";
                        L.iter (fun (p : FarmValue.pool_raw) ->
                            if BinInt.Z.eqb p.FarmValue.p_id mm.Gauge.m_pool then ()
@@ -256,7 +259,7 @@ let run (path : string) =
                                      ^ (if unq then ":child-quote-unpriced" else ""))) mobs
                        end
                      | None -> bump "farmvalue:no-raw");
-                    let e = Gauge.farm_env_of mm others obs in
+                    let e = Gauge.farm_env_of mm others !obs_used in
                     (* which populations this gauge sees: master farmers with a listed child / an unlisted pool only / nothing else *)
                     if mm.Gauge.m_master && mm.Gauge.m_child <> [] then begin
                       let ids = Gauge.child_ids mm others in
